@@ -219,8 +219,16 @@ func (fr *frame) binop(x *ssa.BinOp) Value {
 	case token.GEQ:
 		return BoolV(Ge(a.T, b.T))
 	case token.ADD:
+		if fr.contract != nil && fr.contract.ArithMath && fr.prefix == "" {
+			fx.note("ASSUMED: machine arithmetic treated as mathematical (no overflow of +/-) in %s", fr.name)
+			return IntV(fx.enc.Def("add", "Int", Add(a.T, b.T)), T)
+		}
 		return IntV(fx.enc.Def("add", "Int", wrapTo(Add(a.T, b.T), T)), T)
 	case token.SUB:
+		if fr.contract != nil && fr.contract.ArithMath && fr.prefix == "" {
+			fx.note("ASSUMED: machine arithmetic treated as mathematical (no overflow of +/-) in %s", fr.name)
+			return IntV(fx.enc.Def("sub", "Int", Sub(a.T, b.T)), T)
+		}
 		return IntV(fx.enc.Def("sub", "Int", wrapTo(Sub(a.T, b.T), T)), T)
 	case token.MUL:
 		return IntV(fx.enc.Def("mul", "Int", wrapTo(Mul(a.T, b.T), T)), T)
